@@ -36,7 +36,8 @@ class HistoryProp(Prop):
             fams = os.environ["GAISIM_FAMILIES"].split(",")
         cfg = {"hazards": hz, "families": fams, "n_files": rng.randint(1, 3), "max_lines": 60,
                "human_pre_ckpt": True, "gates": self.gates(), "dirty_buffers": rng.random() < 0.2,
-               "maintenance": rng.random() < 0.2, "stage_as_you_go": rng.random() < 0.3}
+               "maintenance": rng.random() < 0.2, "stage_as_you_go": rng.random() < 0.3,
+               "old_author_dates": rng.random() < 0.15}
         idg = gen.IdGen()
         files = gen.initial_files(rng, idg, cfg["n_files"], 10, hz)
         if not any(files.values()):
